@@ -5,7 +5,7 @@ import Dmn.Model.EvalM
 
 `FeelIterator::run` is transcribed literally: the reversed state list, the persistent
 iteration context, the `overflow` carry and the three `break 'outer` conditions.  `isize`
-additions are checked (`None` = the debug build panics; a release build wraps).
+additions are `checked_add` (`None` = beyond any end).
 -/
 
 namespace Dmn.Iter
@@ -51,29 +51,34 @@ def fill (states : List State) (ctx : Ctx) (wrote : Bool) : Ctx × Bool :=
 inductive Step where
   | next (states : List State)
   | stop
-  | overflowPanic
 
-/-- The second `for` loop (`'inner`): advance with carry. `isLast` marks the last state. -/
+/-- The second `for` loop (`'inner`): advance with carry. `next_index` is
+`index.checked_add(step)`: `none` counts as beyond any end. -/
 def advance (states : List State) (overflow : Bool) : Step :=
   match states with
   | [] => .next []
   | st :: rest =>
     if !overflow then .next (st :: rest)
     else
-      match addChecked st.index st.step with
-      | none => .overflowPanic
-      | some nxt =>
-        let isLast := rest.isEmpty
-        if isLast && st.step > 0 && nxt > st.stop then .stop
-        else if isLast && st.step < 0 && nxt < st.stop then .stop
-        else if st.step == 0 then .stop
-        else
-          let fits := if st.step > 0 then nxt ≤ st.stop else nxt ≥ st.stop
-          let st' := if fits then { st with index := nxt } else { st with index := st.start }
-          match advance rest (!fits) with
-          | .next rest' => .next (st' :: rest')
-          | .stop => .stop
-          | .overflowPanic => .overflowPanic
+      let nxt := addChecked st.index st.step
+      let isLast := rest.isEmpty
+      let beyondUp := match nxt with
+        | some n => decide (n > st.stop)
+        | none => true
+      let beyondDown := match nxt with
+        | some n => decide (n < st.stop)
+        | none => true
+      if isLast && st.step > 0 && beyondUp then .stop
+      else if isLast && st.step < 0 && beyondDown then .stop
+      else if st.step == 0 then .stop
+      else
+        let fits := if st.step > 0 then !beyondUp else !beyondDown
+        let st' := match nxt with
+          | some n => if fits then { st with index := n } else { st with index := st.start }
+          | none => { st with index := st.start }
+        match advance rest (!fits) with
+        | .next rest' => .next (st' :: rest')
+        | .stop => .stop
 
 /-- The `'outer` loop: the contexts handed to the handler, in order. -/
 def loop (fuel : Nat) (states : List State) (ctx : Ctx) (acc : List Ctx) : Outcome (List Ctx) :=
@@ -84,7 +89,6 @@ def loop (fuel : Nat) (states : List State) (ctx : Ctx) (acc : List Ctx) : Outco
     let acc' := if wrote then ctx' :: acc else acc
     match advance states true with
     | .stop => .ok acc'.reverse
-    | .overflowPanic => .panic "iterations.rs: isize overflow in index + step"
     | .next states' => loop fuel states' ctx' acc'
 
 /-- number of index vectors, plus one: enough fuel for `loop` -/
